@@ -5,6 +5,8 @@ import (
 	"net/url"
 	"strings"
 
+	"github.com/0xReLogic/Helios/internal/config"
+	"github.com/0xReLogic/Helios/internal/loadbalancer"
 	"github.com/0xReLogic/Helios/internal/verifrt"
 )
 
@@ -71,4 +73,41 @@ func VerifC11API(k int) {
 			verifrt.Assert(n == want, "after every admin call the listed backends are exactly the model's (names verbatim)")
 		}
 	}
+}
+
+// tokens an operator may configure, including ones that look like shell / environment syntax
+var verifTokens = []string{"tok", "$ecretAdminT0ken", "Xk9$Admin2024", "pa$$w0rd", "${HELIOS_ADMIN_TOKEN}", "a b", "%41"}
+
+// VerifC10LoadedToken: the admin API as main builds it - the configuration goes
+// through the real LoadConfig, the balancer through NewLoadBalancer, the handler
+// through NewMux - with every token of a catalogue: exactly "Bearer <token as
+// written in the file>" is accepted; no Authorization, the token without the
+// scheme, or a truncated token get 401 and change nothing.
+func VerifC10LoadedToken() {
+	tok := verifTokens[verifrt.Choice("configuredToken", len(verifTokens))]
+	c := &config.Config{}
+	c.Server.Port = 8080
+	c.LoadBalancer.Strategy = "round_robin"
+	c.Backends = []config.BackendConfig{{Name: "b0", Address: "http://127.0.0.1:8081", Weight: 1}}
+	c.AdminAPI.Enabled = true
+	c.AdminAPI.Port = 9091
+	c.AdminAPI.AuthToken = tok
+	cfg, err := config.VerifLoadConfig(c)
+	verifrt.Assert(err == nil && cfg != nil, "a documented configuration with an admin token loads")
+	lb, err := loadbalancer.NewLoadBalancer(cfg)
+	verifrt.Assert(err == nil, "the balancer starts")
+	defer lb.Stop()
+	h := NewMux(lb, cfg, lb.GetMetricsCollector())
+	presented := []string{"", "Bearer " + tok, tok, "Bearer " + tok[:len(tok)-1], "Bearer ", "Bearer"}
+	p := presented[verifrt.Choice("authorization", len(presented))]
+	r := &http.Request{Method: "POST", URL: &url.URL{Path: "/v1/backends/remove"}, Header: http.Header{}, RemoteAddr: "10.0.0.1:999"}
+	r.Body = &verifBody{Reader: strings.NewReader(`{"name":"b0"}`)}
+	if p != "" {
+		r.Header.Set("Authorization", p)
+	}
+	rec := &verifRecorder{hdr: http.Header{}}
+	h.ServeHTTP(rec, r)
+	exact := p == "Bearer "+tok
+	verifrt.Assert(exact == (rec.status != http.StatusUnauthorized), "exactly 'Bearer <token as configured in the file>' is accepted; everything else is answered 401")
+	verifrt.Assert(exact == (len(lb.ListBackends()) == 0), "a refused request changes nothing; the authorised remove takes effect")
 }
